@@ -903,22 +903,6 @@ func c14StressOracle(st *c14Stress) []string {
 	return bad
 }
 
-// c14KeyFinerThanRequest: class predicate of known finding C14-range-cache-key-finer-than-request.  The ONLY thing wrong with the
-// run is that a /api/v1/query_range request whose start or end is not second-aligned (i.e. derived from the caller's time.Now()) was
-// answered successfully more than once - never concurrently (the key lock serialises the callers), and every other clause holds.
-func c14KeyFinerThanRequest(st *c14Stress, bad []string) bool {
-	if len(bad) != 1 || st.MaxPerKey > 1 || st.Hung || !strings.HasPrefix(bad[0], "the server answered the identical request "+promapi.APIPathQueryRange+"?") {
-		return false
-	}
-	frac := false
-	for _, kv := range strings.Split(st.SuccessKey, "&") {
-		if (strings.HasPrefix(kv, "start=") || strings.HasPrefix(kv, "end=")) && strings.Contains(kv, ".") {
-			frac = true
-		}
-	}
-	return frac
-}
-
 func c14GenStress(r *rand.Rand, id int, directed int) *c14Stress {
 	st := &c14Stress{ID: id, Pool: []int{1, 2, 3, 4, 8, 16}[r.Intn(6)], DelayMs: []int{0, 1, 2, 5, 10}[r.Intn(5)], Rounds: 1 + r.Intn(2)}
 	pool := []c14Question{
@@ -953,6 +937,18 @@ func c14GenStress(r *rand.Rand, id int, directed int) *c14Stress {
 		for i := 0; i < 8; i++ {
 			st.Questions = append(st.Questions, c14Question{Kind: "range", Arg: fmt.Sprintf("single_%d", i), Lookback: []string{"10m", "30m", "1h", "1h59m"}[i%4], Step: "1m"})
 			st.Callers = append(st.Callers, i)
+		}
+		return st
+	}
+	if directed == 4 {
+		// many callers released together ask ONE question whose request depends on each caller's own time.Now() (a single-request
+		// range question): requests the server cannot tell apart must share one cache entry (regression scenario of fix c5439fe)
+		st.Pool = []int{2, 4}[r.Intn(2)]
+		st.DelayMs = []int{0, 2, 10}[r.Intn(3)]
+		st.Rounds = 3
+		st.Questions = []c14Question{{Kind: "range", Arg: "now_relative", Lookback: []string{"30m", "1h", "6h"}[r.Intn(3)], Step: []string{"1m", "5m", "5h"}[r.Intn(3)]}}
+		for i := 0; i < 96; i++ {
+			st.Callers = append(st.Callers, 0)
 		}
 		return st
 	}
@@ -1137,6 +1133,10 @@ func runC14(args []string) int {
 		stress = append(stress, c14GenStress(r, id, 3))
 		id++
 	}
+	for i := 0; i < 8; i++ {
+		stress = append(stress, c14GenStress(r, id, 4))
+		id++
+	}
 	for i := 0; i < nStress; i++ {
 		stress = append(stress, c14GenStress(r, id, 0))
 		id++
@@ -1179,11 +1179,7 @@ func runC14(args []string) int {
 			if st.SharedSlices {
 				sharedHit++
 			}
-			if c14KeyFinerThanRequest(st, bad) {
-				rep.failKnown(fmt.Sprint(st.ID), what+" [the two callers' time.Now() fell into the same 238 ns bucket of the float the request carries, while the cache key has nanosecond precision]", st, "C14-range-cache-key-finer-than-request")
-			} else {
-				rep.fail(fmt.Sprint(st.ID), what, st)
-			}
+			rep.fail(fmt.Sprint(st.ID), what, st)
 		}
 		if len(rep.Samples) < 5 && st.ID%7 == 0 {
 			rep.sample(st)
